@@ -15,6 +15,15 @@ def ins (k : κ) (v : α) : List (κ × α) → List (κ × α)
     | .eq => (k, v) :: rest
     | .gt => (k', v') :: ins k v rest
 
+/-- `BTreeMap::insert` with its return value: the value the key was bound to before -/
+def insR (k : κ) (v : α) : List (κ × α) → List (κ × α) × Option α
+  | [] => ([(k, v)], none)
+  | (k', v') :: rest =>
+    match compare k k' with
+    | .lt => ((k, v) :: (k', v') :: rest, none)
+    | .eq => ((k, v) :: rest, some v')
+    | .gt => let r := insR k v rest; ((k', v') :: r.1, r.2)
+
 /-- `iter.collect::<BTreeMap<_, _>>()` -/
 def ofList (l : List (κ × α)) : List (κ × α) := l.foldl (fun m kv => ins kv.1 kv.2 m) []
 
